@@ -21,7 +21,9 @@ use serde::{Deserialize, Serialize};
 /// `ExprNodeId` values inside `Code` are valid on both sides.
 #[derive(Debug, Clone, Serialize, Deserialize)]
 pub enum FfiValue {
-    ErrorV, // Can't serialize ExprNodeId across FFI, so just mark as error
+    /// Never produced by [`Value::to_ffi_value`] (error values are refused);
+    /// the variant only keeps the wire indices of the other variants stable.
+    ErrorV,
     Unit,
     Number(f64),
     String(String), // Real String, not Symbol!
@@ -32,7 +34,7 @@ pub enum FfiValue {
     /// Valid across DLL boundaries when the interner is shared.
     Code(ExprNodeId),
     TaggedUnion(u64, Box<FfiValue>),
-    // Note: Closures, Fixpoints, ExternalFn, Store, and ConstructorFn
+    // Note: Closures, Fixpoints, ExternalFn, Store, ConstructorFn and ErrorV
     // cannot be safely serialized across FFI boundaries
 }
 
@@ -62,10 +64,13 @@ impl Value {
     /// Convert Value to FFI-safe FfiValue by expanding Symbols to Strings.
     ///
     /// Returns Err if the Value contains types that cannot cross FFI boundaries
-    /// (Closures, ExternalFn, Fixpoint, Store, ConstructorFn).
+    /// (Closures, ExternalFn, Fixpoint, Store, ConstructorFn) or an error value,
+    /// which the other side could only decode as something else.
     pub fn to_ffi_value(&self) -> Result<FfiValue, String> {
         match self {
-            Value::ErrorV(_) => Ok(FfiValue::ErrorV),
+            Value::ErrorV(_) => {
+                Err("Error values cannot be serialized across FFI boundaries".to_string())
+            }
             Value::Unit => Ok(FfiValue::Unit),
             Value::Number(n) => Ok(FfiValue::Number(*n)),
             Value::String(sym) => Ok(FfiValue::String(sym.as_str().to_string())),
@@ -114,7 +119,7 @@ impl Value {
 ///
 /// Converts Symbols to Strings before serialization to support dynamic plugins.
 /// Returns Err if the arguments contain values that cannot be serialized
-/// (closures, external functions, or mutable references).
+/// (closures, external functions, mutable references, or error values).
 pub fn serialize_macro_args(args: &[(Value, TypeNodeId)]) -> Result<Vec<u8>, String> {
     // Convert to FFI-safe representation
     let ffi_args: Result<Vec<_>, _> = args
